@@ -16,7 +16,7 @@ REPO = os.environ.get("VERIF_REPO", "/repo")
 WORK = os.path.join(VERIF, ".work")
 SPEC = os.path.join(VERIF, "spec")
 HARNESS = os.path.join(VERIF, "harness")
-EVIDENCE = os.path.join(VERIF, "evidence")
+EVIDENCE = os.path.join(VERIF, "evidence") if REPO == "/repo" else os.path.join(WORK, "evidence-alt")
 FINDINGS = os.path.join(VERIF, "known-findings.txt")
 BACKENDS = ["spqlios-fma", "spqlios-avx", "nayuki-portable", "nayuki-avx", "fftw"]
 KINDS = ["optim", "debug"]
